@@ -106,24 +106,36 @@ func prop(t *rapid.T) {
 		}
 		nr := &named{p: p, name: fmt.Sprintf("n%d", rapid.IntRange(0, 3).Draw(t, "name"))}
 		text := p.String()
+		// every naming call takes the name with blanks around it as well (they are trimmed)
+		pad := func(n string) string {
+			switch rapid.IntRange(0, 5).Draw(t, "namePadding") {
+			case 0:
+				ev.Class("name-given-with-blanks-around-it")
+				return n + " "
+			case 1:
+				ev.Class("name-given-with-blanks-around-it")
+				return "\t" + n + " "
+			}
+			return n
+		}
 		reg := func() {
 			switch rapid.IntRange(0, 4).Draw(t, "namingAPI") {
 			case 0:
-				nr.route = r.AddNamed(nr.name, text, noop)
+				nr.route = r.AddNamed(pad(nr.name), text, noop)
 			case 1:
-				nr.route = r.AddRoute(rux.NewNamedRoute(nr.name, text, noop))
+				nr.route = r.AddRoute(rux.NewNamedRoute(pad(nr.name), text, noop))
 			case 2:
 				nr.route = rux.NamedRoute(" "+nr.name+" ", text, noop, "GET")
 				nr.route.AttachTo(r)
 			case 3:
 				nr.route = r.GET(text, noop)
-				nr.route.NamedTo(nr.name, r)
+				nr.route.NamedTo(pad(nr.name), r)
 			default:
 				// named at registration, renamed afterwards: both names refer to it
-				nr.route = r.AddNamed(nr.name, text, noop)
+				nr.route = r.AddNamed(pad(nr.name), text, noop)
 				latest[nr.name] = nr
 				nr.name = fmt.Sprintf("n%d", rapid.IntRange(0, 3).Draw(t, "rename"))
-				nr.route.NamedTo(nr.name, r)
+				nr.route.NamedTo(pad(nr.name), r)
 			}
 		}
 		if rapid.IntRange(0, 3).Draw(t, "inGroup") == 0 {
@@ -148,7 +160,7 @@ func prop(t *rapid.T) {
 				name = fmt.Sprintf("n%d", rapid.IntRange(0, 3).Draw(t, "reclaimName"))
 			}
 			if name != "" {
-				old.route.NamedTo(name, r)
+				old.route.NamedTo(pad(name), r)
 				old.name = name
 				latest[name] = old
 				ev.Class("name-reclaimed-by-NamedTo")
